@@ -23,7 +23,7 @@ Next == /\ ~done /\ done' = TRUE /\ UNCHANGED tid
         /\ LET f == Files[tid]  b == f.bytes IN
            IF ~HasIdent(b) THEN PrintT(ToJson([t |-> f.t, segs |-> <<>>, pc |-> "NotElf", fetch |-> "NotElf", entry |-> <<>>, nslots |-> 0]))
            ELSE LET S == AllSlots(b) IN
-                PrintT(ToJson([t |-> f.t, segs |-> ImageVerdicts(Image(b), f.obs, f.exts, S, AW(ClsOf(b))),
+                PrintT(ToJson([t |-> f.t, segs |-> ImageVerdicts(Image(b), f.obs, f.exts, S, AW(ClsOf(b)), AsIsImage(b, 4096), "BssAsWithoutZeroFill"),
                                pc |-> PcVerdict(b, f), fetch |-> FetchVerdict(b, f), entry |-> Entry(b), nslots |-> Len(Slots(b))]))
 Spec == Init /\ [][Next]_vars
 =============================================================================
